@@ -23,7 +23,7 @@ CLAIMED = {
  'C20': ('proof', 'generic assertion-erasure theorem (Erase.v) instantiated per function pair: whatever the glam-assert build returns the plain build returns, for all Ops, arguments and fuel; documented-violation witnesses on model and crate', 'partial: that float outputs stay within the is_normalized tolerance along chains is differential only (chain run on assert/plain drivers); the exact real-arithmetic unit-ness of the outputs is proved in UnitAlg.v'),
 }
 NOT_BUILT = {
- 'C19': 'not built in this round: the optional-feature sources (serde/bytemuck/rkyv/mint) are not translated; the technique applies to the lane-order/layout core',
+ 'C19': 'not claimed: not built (DESIGN 12.9). The optional-feature sources are generated by item-level macro_rules! and generic serde code, which the translator does not expand / instantiate, and the mint/bytemuck/rkyv types are external; the technique would apply after that translator work',
 }
 def main():
     props = [json.loads(l) for l in open('/verif/properties.jsonl')]
